@@ -40,6 +40,12 @@ class Res(wiring.Component):
         super().__init__({})
 
 
+class EmptyRes(Res):
+    """a resource object that is FALSY (a container-like component with nothing in it): still a resource"""
+    def __len__(self):
+        return 0
+
+
 def M(aw, dw, al, *items):
     return {"aw": aw, "dw": dw, "al": al, "items": list(items)}
 
@@ -68,6 +74,9 @@ def shapes(tier):
     # windows SMALLER than the parent's alignment granule: their range is padded, and the padding decodes to nothing
     s.append(M(5, 32, 3, R("imp"), W(M(2, 32, 0, R(), R("imp"))), R("imp")))                         # 4-address window, granule 8
     s.append(M(5, 32, 2, W(M(3, 8, 2, R(), R("imp")), sparse=False, mode="imp"), R("imp")))             # dense 4: 2 addresses, granule 4
+    # a NAMED window below an ANONYMOUS one (and the other way round) inside the same map
+    s.append(M(5, 32, 0, W(leaf32(R()), name=True), W(leaf32(R(), R("imp")), name=False), R("imp")))
+    s.append(M(5, 32, 0, W(leaf32(R()), name=False), W(leaf32(R("imp")), name=True), W(leaf32(R()), name=False)))
     # dense windows over leaves that are MORE aligned than the ratio requires (alignment > log2(ratio))
     s.append(M(4, 32, 0, R("imp"), W(M(4, 8, 3, R(), R("imp")), sparse=False, name=False)))            # ratio 4, alignment 3
     s.append(M(4, 32, 0, W(M(3, 16, 2, R(), R("imp")), sparse=False), R("imp")))                       # ratio 2, alignment 2
@@ -133,7 +142,7 @@ def harness_for(cfg):
                 ctr[0] += 1
                 n = ctr[0]
                 if it["t"] == "res":
-                    r = Res()
+                    r = EmptyRes() if n % 2 else Res()
                     addr = E.int(f"a{n}", 0, top) if it["mode"] == "sym" else None
                     size = E.int(f"z{n}", 0, top)
                     try:
